@@ -6,8 +6,10 @@ or handing r to a helper that does) therefore changes the caller's array for som
 of the caller depends on the dtype it happened to use, and "arrays handed in by the caller are not modified" fails.
 The rule follows such values inside a module: through locals, through returns of module functions (a function that
 returns the conditional copy of its parameter passes the aliasing on to its caller) and into module functions that
-mutate their parameter in place.  Only values that *may alias a parameter of the function under analysis through a
-conditional copy* are tracked; arrays a function created itself (np.array, zeros_like, arithmetic results, .copy()) are
+mutate their parameter in place.  Only values that *may alias a parameter of the function under analysis -- or the stored array that a property of a
+parameter hands out (``mesh.frequencies``; decided from the property bodies of all phonopy classes with that name) --
+through a conditional copy* are tracked, in functions and methods, through locals and attributes of self; a compiled
+routine that stores through an argument (summaries of the C sources through the glue) changes it in place; arrays a function created itself (np.array, zeros_like, arithmetic results, .copy()) are
 fresh.
 """
 
@@ -37,6 +39,9 @@ def _alias(e, env, fns, depth=0):
             base = set(env.get(inner.id, set())) if isinstance(inner, ast.Name) else _alias(inner, env, fns, depth)
             if isinstance(inner, ast.Name) and inner.id in env.get("__params__", set()):
                 base = base | {inner.id}
+            # state of another object: an attribute of a parameter that hands out the stored array itself, directly or
+            # after it was bound to a local / to an attribute of self without a copy
+            base = base | _plain_origin(inner, env)
             return base
         if isinstance(e.func, ast.Attribute) and e.func.attr in VIEWS:
             return _alias(e.func.value, env, fns, depth)
@@ -55,12 +60,81 @@ def _alias(e, env, fns, depth=0):
         return _alias(e.value, env, fns, depth)
     if isinstance(e, ast.Attribute) and e.attr == "T":
         return _alias(e.value, env, fns, depth)
+    if isinstance(e, ast.Attribute):
+        return set(env.get(core.src(e), set()))
     if isinstance(e, ast.IfExp):
         return _alias(e.body, env, fns, depth) | _alias(e.orelse, env, fns, depth)
     return set()
 
 
 _cache: dict = {}
+EXPOSING: dict = {}  # property name -> True when every phonopy class that defines it returns the stored array itself
+EXPOSING_BY_CLASS: dict = {}  # (class name, property name) -> the property returns the stored array itself (base classes followed)
+ENTRY_WRITES: dict = {}  # phonoc entry -> argument positions the compiled code stores through
+
+
+def _plain_origin(e, env):
+    """labels of foreign state that e is, without any copy: 'p.attr' for an exposing property of parameter p"""
+    direct = env.get("__direct__", {})
+    if isinstance(e, (ast.Name, ast.Attribute)) and core.src(e) in direct:
+        return set(direct[core.src(e)])
+    if isinstance(e, ast.Attribute) and isinstance(e.value, ast.Name) and e.value.id in env.get("__params__", set()) and e.value.id not in ("self", "cls"):
+        cls = env.get("__annot__", {}).get(e.value.id)
+        verdict = EXPOSING_BY_CLASS.get((cls, e.attr)) if cls else None
+        if verdict is None:
+            verdict = EXPOSING.get(e.attr)  # no usable annotation: every class that defines the property must expose
+        if verdict:
+            return {core.src(e)}
+    return set()
+
+
+def prepare(with_c: bool):
+    """class / kernel facts the rule uses beyond one module: which properties hand out stored arrays, which phonoc
+    entries store through which argument"""
+    from rules import shared_ctoralias
+
+    if not EXPOSING:
+        K = shared_ctoralias._Classes(core.python_files("phonopy"))
+        votes = {}
+        for rel in core.python_files("phonopy"):
+            for c in ast.walk(core.parse(rel)):
+                if not isinstance(c, ast.ClassDef):
+                    continue
+                for m in c.body:
+                    if isinstance(m, ast.FunctionDef) and any(core.src(d) == "property" for d in m.decorator_list):
+                        rets = [r for r in ast.walk(m) if isinstance(r, ast.Return) and r.value is not None]
+                        direct = bool(rets) and all(isinstance(r.value, ast.Attribute) and isinstance(r.value.value, ast.Name) and r.value.value.id == "self" for r in rets)
+                        votes.setdefault(m.name, []).append(direct)
+        EXPOSING.update({k: all(v) for k, v in votes.items()})
+        for cn in K.cls:
+            for c in reversed(K.mro(cn)):
+                for m in c.body:
+                    if isinstance(m, ast.FunctionDef) and any(core.src(d) == "property" for d in m.decorator_list):
+                        rets = [r for r in ast.walk(m) if isinstance(r, ast.Return) and r.value is not None]
+                        EXPOSING_BY_CLASS[(cn, m.name)] = bool(rets) and all(isinstance(r.value, ast.Attribute) and isinstance(r.value.value, ast.Name) and r.value.value.id == "self" for r in rets)
+    if with_c and not ENTRY_WRITES:
+        from rules import shared_zeroinit
+
+        csum = shared_zeroinit.c_summaries()
+        glue, exported = shared_zeroinit.xabi.glue_table()
+        for ex, fnname in exported.items():
+            g = glue.get(fnname)
+            if g is None:
+                continue
+            pidx = {p_.name: i for i, p_ in enumerate(g.params)}
+            w = set()
+            for callee, texts, nodes in g.calls:
+                for ix, a in enumerate(nodes):
+                    if csum.get(callee, {}).get(ix) not in ("acc", "init"):
+                        continue
+                    for x in shared_zeroinit.cast.walk(a):
+                        if x.get("kind") == "DeclRefExpr":
+                            nm = x.get("referencedDecl", {}).get("name")
+                            if nm in pidx:
+                                w.add(pidx[nm])
+                            elif nm in g.origin and g.origin[nm][0] == "data" and g.origin[nm][1] in pidx:
+                                w.add(pidx[g.origin[nm][1]])
+            ENTRY_WRITES[ex] = w
 
 
 def summary(fn, fns, depth=0):
@@ -70,7 +144,16 @@ def summary(fn, fns, depth=0):
     if key in _cache:
         return _cache[key]
     params = [a.arg for a in fn.args.args]
-    env = {"__params__": set(params)}
+    annot = {}
+    for a in fn.args.args + fn.args.kwonlyargs:
+        an = a.annotation
+        if isinstance(an, ast.Subscript) and core.src(an.value) in ("Optional", "typing.Optional"):
+            an = an.slice
+        if isinstance(an, ast.Constant) and isinstance(an.value, str):
+            annot[a.arg] = an.value.split(".")[-1]
+        elif isinstance(an, (ast.Name, ast.Attribute)):
+            annot[a.arg] = core.src(an).split(".")[-1]
+    env = {"__params__": set(params), "__direct__": {}, "__annot__": annot}
     sites = []
     mutated = set()
     direct = {p: {p} for p in params}  # plain (non-conditional) aliases of a parameter: a parameter itself
@@ -81,11 +164,29 @@ def summary(fn, fns, depth=0):
         return _alias(e, env, fns, depth)
 
     stmts = sorted((n for n in ast.walk(fn) if isinstance(n, (ast.Assign, ast.AugAssign, ast.Expr, ast.Return))), key=lambda n: (n.lineno, n.col_offset))
+    # statements that run only on some paths: their assignments add to what a name may be, they do not replace it
+    conditional = set()
+    for blk in ast.walk(fn):
+        if isinstance(blk, (ast.If, ast.For, ast.While, ast.Try, ast.With)) and blk is not fn:
+            for sub in ast.walk(blk):
+                if sub is not blk and isinstance(sub, ast.stmt) and not isinstance(blk, ast.With):
+                    conditional.add(id(sub))
     returns = set()
     for st in stmts:
-        if isinstance(st, ast.Assign) and len(st.targets) == 1 and isinstance(st.targets[0], ast.Name):
-            env[st.targets[0].id] = _alias(st.value, env, fns, depth)
-            direct.pop(st.targets[0].id, None)
+        if isinstance(st, ast.Assign) and len(st.targets) == 1 and isinstance(st.targets[0], (ast.Name, ast.Attribute)):
+            key = core.src(st.targets[0])
+            po = _plain_origin(st.value, env) if isinstance(st.value, (ast.Name, ast.Attribute)) else set()
+            new_alias = _alias(st.value, env, fns, depth)
+            if id(st) in conditional:
+                env[key] = set(env.get(key, set())) | new_alias
+                po = po | set(env["__direct__"].get(key, set()))
+            else:
+                env[key] = new_alias
+                direct.pop(key, None)
+            if po:
+                env["__direct__"][key] = po
+            else:
+                env["__direct__"].pop(key, None)
         elif isinstance(st, ast.Assign) and isinstance(st.targets[0], ast.Subscript):
             base = st.targets[0].value
             for p in (_alias(base, env, fns, depth) if not isinstance(base, ast.Name) else set(env.get(base.id, set()))):
@@ -102,6 +203,13 @@ def summary(fn, fns, depth=0):
                 for p in set(env.get(c.func.value.id, set())):
                     sites.append((st, p))
                     mutated.add(p)
+            if isinstance(c.func, ast.Attribute) and core.src(c.func.value) == "phonoc" and ENTRY_WRITES.get(c.func.attr):
+                # a compiled routine that stores through this argument
+                for pos in ENTRY_WRITES[c.func.attr]:
+                    if pos < len(c.args) and isinstance(c.args[pos], (ast.Name, ast.Attribute)):
+                        for p in set(env.get(core.src(c.args[pos]), set())):
+                            sites.append((st, p))
+                            mutated.add(p)
             if isinstance(c.func, ast.Name) and c.func.id in fns and depth < 3:
                 # does the helper change its parameter in place?  (directly: AugAssign / subscript store on the parameter)
                 callee = fns[c.func.id]
@@ -136,10 +244,18 @@ def run(rep: core.Report, rid: str, scope: list[str], floor: int = 0):
     if not summary(cf["f"], cf)["mutates"] or summary(cf["ok"], cf)["mutates"]:
         raise core.AnalysisError(f"{rid}: the rule no longer classifies its own examples")
     _cache.clear()
+    prepare(any("phonoc." in core.read(rel) for rel in scope))
+    ctrl2 = ast.parse("def bad(mesh: Mesh, t):\n    f = np.ascontiguousarray(mesh.frequencies, dtype='double')\n    f *= t\n    return f\ndef good(mesh: Mesh, t):\n    f = np.array(mesh.frequencies, dtype='double')\n    f *= t\n    return f\nclass K:\n    def __init__(self, mesh: Mesh, t):\n        self._f = mesh.frequencies\n        self._f = np.ascontiguousarray(self._f, dtype='double')\n        self._f *= t\n")
+    c2 = _functions(ctrl2)
+    init2 = [n for n in ast.walk(ctrl2) if isinstance(n, ast.FunctionDef) and n.name == "__init__"][0]
+    if EXPOSING_BY_CLASS.get(("Mesh", "frequencies")) and (not summary(c2["bad"], c2)["sites"] or summary(c2["good"], c2)["sites"] or not summary(init2, c2)["sites"]):
+        raise core.AnalysisError(f"{rid}: the rule no longer classifies its own examples (state of another object)")
+    _cache.clear()
     for rel in scope:
         tree = core.parse(rel)
         fns = _functions(tree)
-        for name, fn in fns.items():
+        allf = [(core.qualname_of(n) if not (n in tree.body) else n.name, n) for n in ast.walk(tree) if isinstance(n, ast.FunctionDef)]
+        for name, fn in allf:
             summ = summary(fn, fns)
             seen = set()
             for node, p in summ["sites"]:
@@ -147,6 +263,6 @@ def run(rep: core.Report, rid: str, scope: list[str], floor: int = 0):
                     continue
                 seen.add((node.lineno, p))
                 rep.instance(rid, rel, name, f"{core.norm(core.src(node), 70)} on a conditional copy of '{p}'", False,
-                             f"'{core.norm(core.src(node), 60)}' changes in place a value that is the caller's own array '{p}' whenever that array already has the requested dtype / layout (np.asarray and its relatives copy only when they must): a float64 input is modified, a list or an integer array is not -- the object the caller keeps (e.g. the Born charges of its NAC parameters) is silently altered and later states depend on it", line=node.lineno)
+                             f"'{core.norm(core.src(node), 60)}' changes in place a value that is the caller's own array '{p}' whenever that array already has the requested dtype / layout (np.asarray and its relatives copy only when they must): a float64 input is modified, a list or an integer array is not -- the object the caller keeps (e.g. the Born charges of its NAC parameters, the frequencies stored in a mesh object) is silently altered and later states depend on it", line=node.lineno)
             if summ["returns"] or any(isinstance(c, ast.Call) and core.src(c.func) in COND_COPY for c in ast.walk(fn)):
                 rep.instance(rid, rel, name, f"conditional copies in {name}: none changed in place", not summ["sites"], "", line=fn.lineno, nontrivial=False)
